@@ -640,16 +640,17 @@ func HugeRule(t *rapid.T) *Spec {
 	k := rapid.IntRange(260, 400).Draw(t, "hugelen")
 	rhs := make([]int, k)
 	nt := len(s.Terms)
-	// (at most 8 nonterminal occurrences: with an ambiguous base grammar
-	// yaccgo's lookahead computation takes about a minute for 30 of them)
-	nts := 0
 	for j := range rhs {
-		if nts < 8 && rapid.IntRange(0, 40).Draw(t, "hnt") == 0 {
-			nts++
+		if rapid.IntRange(0, 40).Draw(t, "hnt") == 0 {
 			rhs[j] = nt + rapid.IntRange(0, len(s.NTs)-1).Draw(t, "hn")
 		} else {
 			rhs[j] = rapid.IntRange(0, nt-1).Draw(t, "ht")
 		}
+	}
+	// a long rule that ends in a nonterminal (right recursion over 300
+	// symbols) is where walking right parts through the automaton costs most
+	if rapid.IntRange(0, 2).Draw(t, "htail") == 0 {
+		rhs[k-1] = nt + rapid.IntRange(0, len(s.NTs)-1).Draw(t, "htailnt")
 	}
 	s.Rules = append(s.Rules, Rule{LHS: s.Start, RHS: rhs, Prec: -1})
 	return s
